@@ -369,8 +369,8 @@ theorem seqAfterUpdate_own {s s' : St} {m : UpdMsg} {b : Bool} (h : OwnN s) (e :
   · cases e
   · rename_i prop hg
     dsimp only at e
-    have h1 : OwnN (setSeq s { prop with dishonor := prop.dishonor - min s.p.dishonorSU prop.dishonor }) :=
-      h.setSeq (q' := { prop with dishonor := prop.dishonor - min s.p.dishonorSU prop.dishonor }) (q0 := prop)
+    have h1 : OwnN (setSeq s { prop with dishonor := prop.dishonor - min s.sqp.dishonorSU prop.dishonor }) :=
+      h.setSeq (q' := { prop with dishonor := prop.dishonor - min s.sqp.dishonorSU prop.dishonor }) (q0 := prop)
         (by show getSeq s prop.addr = some prop; rw [getSeq_addr hg]; exact hg) rfl
     split at e
     · exact onProposerLastBlock_own h1 e
@@ -528,7 +528,7 @@ theorem unbond_own {s s' : St} {a : Addr} (h : OwnN s) (e : unbond s a = .ok s')
           · split at e
             · cases e
             · injection e with e; subst e
-              exact OwnN.setSeq (s := { s with nq := _ }) (q' := { q with optedIn := false, notice := some (s.t + s.p.noticePeriod) })
+              exact OwnN.setSeq (s := { s with nq := _ }) (q' := { q with optedIn := false, notice := some (s.t + s.sqp.noticePeriod) })
                 (q0 := q) (h.of_eq rfl rfl) hqq rfl
         · split at e
           · cases e
@@ -714,7 +714,7 @@ theorem slashLiveness_own {s s1 : St} {r : Rollapp} (h : OwnN s) (e : slashLiven
       · rename_i s2 q2 hsl
         have sp := slash_q hsl
         injection e with e; subst e
-        exact (h.of_eq sp.1 sp.2.1).setSeq (q' := { q2 with dishonor := q2.dishonor + s2.p.dishonorL }) (q0 := q)
+        exact (h.of_eq sp.1 sp.2.1).setSeq (q' := { q2 with dishonor := q2.dishonor + s2.sqp.dishonorL }) (q0 := q)
           (by show getSeq s2 q2.addr = some q; rw [getSeq_congr sp.2.1, sp.2.2.1, getSeq_addr hq]; exact hq) sp.2.2.2
 
 theorem handleLivenessEvent_own {s : St} {ra : Nat} (h : OwnN s) : OwnN (handleLivenessEvent s ra) := by
@@ -789,6 +789,13 @@ theorem apply_own {s s' : St} {o : Op} (h : OwnN s) (e : apply s o = .ok s') : O
   | update m => exact updateState_own h e
   | fraud au ra hh rev p rw => exact fraud_own h e
   | obsolete au vs => exact markObsolete_own h e
+  | punish au a rw => exact punish_own h (punishProposal_ok e).2
+  | transferOwner sg ra' no =>
+    obtain ⟨r, hg, _, _, _, rfl⟩ := transferOwner_ok e
+    exact h.setRa_same hg rfl rfl rfl
+  | setSeqParams au sp =>
+    obtain ⟨_, hnp, _, rfl⟩ := setSeqParams_ok e
+    exact h.of_eq rfl rfl
   | begin_ dt => simp only [apply] at e; injection e with e; subst e; exact beginBlock_own h
   | end_ f => simp only [apply] at e; injection e with e; subst e; exact endBlock_own h
 
